@@ -122,6 +122,48 @@ example : cmdIds [0, 0, 0x61] = [some 177604] ∧ cmdIds [4, 0x3a, 0x20, 0x61, 0
 example : (step (stateAfter .fb [.set 177604]) (.hash [4, 0x3a, 0x20, 0x61, 0x3a, 0x62] ⟨2, false⟩)).2 = ⟨.val 2, [.call 1 177604]⟩ := by
   decide
 
+/-- **delivery (fragmented command message)**: a command message that arrives in several fragments is dispatched
+    like the flattened message: same handler, same answer, whatever the fragment boundaries are (inside the header,
+    the leading white space or the command word, empty fragments, texts longer than the scratch buffer). -/
+theorem delivery_hash_fragments (st : Start) (ops : List Op) (frags : List (List Byte)) (h : HRes) :
+    (step (stateAfter st ops) (.hashFrag frags h)).2 = (step (stateAfter st ops) (.hash frags.flatten h)).2 := by
+  simp only [step, dispatchHashFrag, dispatchHash, hashIdFrag_flat]
+
+example : (step (stateAfter .fb [.set 193506797]) (.hashFrag [[4, 0x20, 0x20, 0x73], [0x74, 0x61], [0x72, 0x74, 0x20, 0x6e]] ⟨2, false⟩)).2
+    = (step (stateAfter .fb [.set 193506797]) (.hash [4, 0x20, 0x20, 0x73, 0x74, 0x61, 0x72, 0x74, 0x20, 0x6e] ⟨2, false⟩)).2 := by decide
+
+/-- **delivery (handler dispatches by hash)**: when the handler an emitted message reaches hands the message on
+    with `mpt_dispatch_hash`, the log is its own invocation followed by what the spec lists for the command text
+    (`hashOutcomes`: exactly the handler registered for the hash, else the fallback, else nobody), and the
+    bookkeeping is done with the value and event id the inner call left: after an inner failure
+    (`MPT_event_fail`: id cleared, `Fail|Default`) there is no default event any more. -/
+theorem nested_dispatch (st : Start) (ops : List Op) (b : Byte) (rest : List Byte) (h : HRes) :
+    ∃ sp, (Spec.init st).run (run st ops).2 = some sp ∧ ∃ o, o ∈ sp.hashOutcomes (some (b :: rest)) h ∧
+      let m := stateAfter st ops
+      let r := step m (.emitCmd (b :: rest) h)
+      match sp.target b.toUInt64 with
+      | some t => r.2.log = .call t b.toUInt64 :: o.1 ∧
+          r.2.ret = .val (book m.d.dflt o.2.2 ⟨o.2.1, false⟩).1 ∧ r.1.d.dflt = (book m.d.dflt o.2.2 ⟨o.2.1, false⟩).2
+      | none => r.2.log = [] := by
+  obtain ⟨sp, hrun, hrel, hw, hs, _⟩ := run_refines st ops
+  refine ⟨sp, hrun, nestedOutcome sp (some (b :: rest)) h, nestedOutcome_mem _ _ _, ?_⟩
+  intro m r
+  have hw' : TWf m.d.tab := hw
+  have hrel' : Rel m sp := hrel
+  have hr : r = ({ m with d := (emitResolved m.d (commandGet m.d.tab b.toUInt64) b.toUInt64 (some (b :: rest)) true h).1 },
+      (emitResolved m.d (commandGet m.d.tab b.toUInt64) b.toUInt64 (some (b :: rest)) true h).2) := rfl
+  rw [hr, emitResolved_nest _ (get_user hw') (nestedCall_outcome hw' hrel' hs _ h), target_eq hrel' hs]
+  cases resolveReg (commandGet m.d.tab b.toUInt64) m.d.err with
+  | some t => simp
+  | none =>
+    by_cases hb : m.d.bi = true
+    · simp [hb]
+    · simp [hb]
+
+/-- an inner dispatch that finds nobody gives up the default event: event 7 is the default, its handler hands on a
+    command nobody is registered for -/
+example : (step (stateAfter .nofb [.set 4, .set 7, .emitId 7 ⟨1, false⟩]) (.emitCmd [4, 0x20, 0x78] ⟨0, false⟩)).1.d.dflt = 0 := by decide
+
 /-- no operation of a reachable state is undefined behaviour in the model (the placeholder handler of a reserved
     element is never invoked, no index leaves the table) -/
 theorem no_fault (st : Start) (ops : List Op) (op : Op) :
@@ -145,24 +187,40 @@ theorem no_fault (st : Start) (ops : List Op) (op : Op) :
     unfold Spec.stepUnhandled Spec.isErr
     repeat' split
     all_goals first | rfl | simp_all
-  have he : ∀ id msg h, sp.stepEmit id msg h ⟨.fault, log⟩ = none := by
-    intro id msg h
-    unfold Spec.stepEmit Spec.stepDeliver
-    repeat' split
-    all_goals first | rfl | exact hu _ _ | simp_all
+  have hd : ∀ r id msg nest h, sp.stepDeliver r id msg nest h ⟨.fault, log⟩ = none := by
+    intro r id msg nest h
+    unfold Spec.stepDeliver
+    cases nest with
+    | true => simp only [if_true]; rw [List.findSome?_eq_none_iff]; intro o _; simp
+    | false => simp
+  have he : ∀ id msg nest h, sp.stepEmit id msg nest h ⟨.fault, log⟩ = none := by
+    intro id msg nest h
+    unfold Spec.stepEmit
+    split
+    · exact hd _ _ _ _ _
+    · exact hu _ _
   cases op with
   | hash msg h =>
     simp only [Spec.step] at hst
     rw [List.findSome?_eq_some_iff] at hst
     obtain ⟨_, cid, _, _, hcid, _⟩ := hst
     rw [hh] at hcid; cases hcid
+  | hashFrag frags h =>
+    simp only [Spec.step] at hst
+    rw [List.findSome?_eq_some_iff] at hst
+    obtain ⟨_, cid, _, _, hcid, _⟩ := hst
+    rw [hh] at hcid; cases hcid
+  | emitCmd msg h =>
+    cases msg with
+    | nil => simp [Spec.step, Spec.isErr] at hst
+    | cons b rest => simp only [Spec.step, he] at hst; cases hst
   | emitId id h => simp only [Spec.step, he] at hst; cases hst
   | emitMsg msg h =>
     cases msg with
     | nil => simp [Spec.step, Spec.isErr] at hst
     | cons b rest => simp only [Spec.step, he] at hst; cases hst
   | emitNone h =>
-    simp only [Spec.step, Spec.stepDeliver, Spec.isErr, hu] at hst
+    simp only [Spec.step, hd, Spec.isErr, hu] at hst
     repeat' split at hst
     all_goals first | (cases hst; done) | (cases hfb : sp.fb <;> rw [hfb] at hst <;> cases hst; done) | simp_all
   | setError =>
@@ -250,7 +308,7 @@ theorem default_bookkeeping (st : Start) (ops : List Op) (id : Id) (h : HRes) :
   obtain ⟨sp, hrun, hrel, hw, hs, _⟩ := run_refines st ops
   intro m r
   have hw' : TWf m.d.tab := hw
-  have hr : r = ({ m with d := (emitResolved m.d (commandGet m.d.tab id) id none h).1 }, (emitResolved m.d (commandGet m.d.tab id) id none h).2) := rfl
+  have hr : r = ({ m with d := (emitResolved m.d (commandGet m.d.tab id) id none false h).1 }, (emitResolved m.d (commandGet m.d.tab id) id none false h).2) := rfl
   rw [hr, emitResolved_spec (get_user hw')]
   cases resolveReg (commandGet m.d.tab id) m.d.err with
   | some r => simp
